@@ -32,6 +32,10 @@ type Engine struct {
 	// plus a non-zero exit status; an unreadable or failing input never ends in success).
 	CLIOnly   bool
 	EmergeBin string // real binary for the differential transparency tier (optional)
+
+	// files written by the fault-free run of the current scenario (reference for faulted runs)
+	reference     map[string]string
+	referenceName string
 }
 
 func (e Engine) ID() string {
@@ -546,12 +550,9 @@ func (e Engine) judge(s scenario, rr runResult, pid int, tmpls []tmplInfo, acc, 
 		if !ok || ent.Kind != "dir" {
 			return &verdict{"success_without_package_dir", fmt.Sprintf("exit 0 but %s is not a directory afterwards (-out/-name not honoured?)", target)}
 		}
-		if _, existed := rr.before[target]; existed {
-			return &verdict{"success_into_existing", fmt.Sprintf("exit 0 although %s existed before the run", target)}
-		}
-		if ent.Created != pid {
-			return &verdict{"success_dir_not_ours", fmt.Sprintf("%s was not created by this run", target)}
-		}
+		// (Writing into a package directory that already existed is not forbidden by the statement as
+		// long as nothing in it is modified - that is clause 1 - so neither its prior existence nor
+		// who created it is judged here.)
 		// exactly the expected file set, complete content
 		want := map[string]bool{}
 		for _, ti := range tmpls {
@@ -563,6 +564,9 @@ func (e Engine) judge(s scenario, rr runResult, pid int, tmpls []tmplInfo, acc, 
 				if rr.after[p2].Created == -1 {
 					continue // dropped there by the foreign actor
 				}
+				if _, existed := rr.before[p2]; existed {
+					continue // was there before the run (and is checked by clause 1)
+				}
 				if !want[rel] {
 					return &verdict{"unexpected_file", fmt.Sprintf("unexpected %s in the package directory", rel)}
 				}
@@ -573,20 +577,29 @@ func (e Engine) judge(s scenario, rr runResult, pid int, tmpls []tmplInfo, acc, 
 			if !ok || fe.Kind != "file" {
 				return &verdict{"missing_file", fmt.Sprintf("exit 0 but %s was not written", ti.file)}
 			}
+			// Completeness is judged structurally (the statement does not fix the bytes): the static
+			// text of the template must be in the file in full - a generator that adds a header or a
+			// footer of its own is not wrong - and, where a fault-free reference run of the same
+			// command exists, a run that met faults yet reports success must have produced the very
+			// same bytes.
 			if ti.static {
-				if exp := strings.ReplaceAll(ti.text, "{{.Package}}", name); fe.Data != exp {
-					return &verdict{"incomplete_file", fmt.Sprintf("exit 0 but %s differs from its template rendering (got %d bytes, expected %d)", ti.file, len(fe.Data), len(exp))}
+				if exp := strings.ReplaceAll(ti.text, "{{.Package}}", name); !strings.Contains(fe.Data, exp) {
+					return &verdict{"incomplete_file", fmt.Sprintf("exit 0 but %s does not contain its template rendering in full (got %d bytes, the rendering has %d)", ti.file, len(fe.Data), len(exp))}
 				}
 			} else {
 				head := strings.ReplaceAll(ti.head, "{{.Package}}", name)
 				tail := strings.ReplaceAll(ti.tail, "{{.Package}}", name)
-				if !strings.HasPrefix(fe.Data, head) || !strings.HasSuffix(fe.Data, tail) || len(fe.Data) < len(head)+len(tail) {
+				hi := strings.Index(fe.Data, head)
+				if hi < 0 || !strings.Contains(fe.Data[hi+len(head):], tail) {
 					return &verdict{"incomplete_file", fmt.Sprintf("exit 0 but %s (%d bytes) lacks the static head/tail of its template", ti.file, len(fe.Data))}
 				}
 			}
+			if ref, ok := e.reference[ti.file]; ok && e.referenceName == name && fe.Data != ref {
+				return &verdict{"incomplete_file", fmt.Sprintf("exit 0 but %s (%d bytes) differs from what the fault-free run of the same command wrote (%d bytes)", ti.file, len(fe.Data), len(ref))}
+			}
 			// 4. package clause
-			if !strings.HasPrefix(fe.Data, "package "+name+"\n") {
-				return &verdict{"package_clause", fmt.Sprintf("%s does not start with `package %s`", ti.file, name)}
+			if !strings.HasPrefix(fe.Data, "package "+name+"\n") && !strings.Contains(fe.Data, "\npackage "+name+"\n") {
+				return &verdict{"package_clause", fmt.Sprintf("%s has no `package %s` clause", ti.file, name)}
 			}
 		}
 		for _, ev := range rr.hist {
@@ -700,8 +713,18 @@ func (e Engine) Run(t *simrt.Tape, c simrt.Case, x *simrt.Ctx) *simrt.Result {
 	}
 
 	// ---- fault-free run ----
+	e.reference, e.referenceName = nil, ""
 	w := e.build(s, files)
 	rr := runOne(w, s, nil)
+	if rr.code == 0 && s.OutPath != "" {
+		e.reference, e.referenceName = map[string]string{}, s.effectiveName()
+		target := path.Join(s.OutPath, s.effectiveName())
+		for p2, ent := range rr.after {
+			if strings.HasPrefix(p2, target+"/") && ent.Kind == "file" {
+				e.reference[strings.TrimPrefix(p2, target+"/")] = ent.Data
+			}
+		}
+	}
 	res.Evals++
 	res.SimNs += w.Clock
 	if len(rr.hist) > 4 || s.InputClass != gen.InAccepted || nameVerdict(s.effectiveName()) != gen.NameUsable {
